@@ -108,3 +108,50 @@ def call_name(c: ast.Call) -> Optional[str]:
     if isinstance(c.func, ast.Name):
         return c.func.id
     return None
+
+
+def fact_in(facts, text: str, pol: bool) -> bool:
+    """Membership of a literal given as text, independent of operand order / double negation in the source."""
+    from .canon import canon_text
+    return (canon_text(text), pol) in facts or (text, pol) in facts
+
+
+def extra_facts(facts, allowed):
+    """Literals of `facts` that match none of the allowed (pattern, polarity) pairs (patterns may use $metavariables)."""
+    out = []
+    for (txt, pol) in sorted(facts):
+        try:
+            e = ast.parse(txt, mode="eval").body
+        except SyntaxError:
+            out.append((txt, pol))
+            continue
+        if not any(pol == apol and pat.match(ap, e) is not None for ap, apol in allowed):
+            out.append((txt, pol))
+    return out
+
+
+def local_assigned_from(ctx, f, call_pattern: str, index: int = None):
+    """Name of the local variable that receives the value of the (single) call matching `call_pattern` in f
+    (for `a, b = call(...)` give the tuple index).  None when there is no such unique assignment."""
+    names = set()
+    for n in ctx.own_nodes(f):
+        if isinstance(n, (ast.Assign, ast.AnnAssign)) and n.value is not None and isinstance(n.value, ast.Call) and pat.match(call_pattern, n.value) is not None:
+            tg = n.targets[0] if isinstance(n, ast.Assign) else n.target
+            if index is None and isinstance(tg, ast.Name):
+                names.add(tg.id)
+            elif index is not None and isinstance(tg, (ast.Tuple, ast.List)) and index < len(tg.elts) and isinstance(tg.elts[index], ast.Name):
+                names.add(tg.elts[index].id)
+    return sorted(names)[0] if len(names) == 1 else None
+
+
+def side_names(ctx, f):
+    """(changed, synced) as spelled in f: parameters, or `synced` as the local assigned from OTHER_SIDE[changed] / other_side(changed)."""
+    params = f.all_param_names()
+    ch = "changed" if "changed" in params else None
+    sy = "synced" if "synced" in params else None
+    if ch and not sy:
+        sy = None
+        for n in ctx.own_nodes(f):
+            if isinstance(n, ast.Assign) and isinstance(n.targets[0], ast.Name) and (pat.match("OTHER_SIDE[%s]" % ch, n.value) is not None or pat.match("other_side(%s)" % ch, n.value) is not None):
+                sy = n.targets[0].id
+    return ch, sy
